@@ -260,6 +260,9 @@ func (j *judge) ports(ols []oneLiner, pr portRule) {
 			shown = p + ", the text after the last colon of an unbracketed IPv6 literal"
 			j.r.Count("oneliners_with_unbracketed_ipv6_literal", 1)
 		}
+		if !isASCII(h) {
+			j.r.Count("oneliners_with_non_ascii_host_checked", 1)
+		}
 		ups := pr.user[h]
 		strict := len(ups) > 0 && !ups[""] && !pr.local[h]
 		switch {
@@ -328,7 +331,9 @@ var cacheForms = []string{"off", "fresh", "existing", "restarts", "default-path"
 
 var cbPool = []string{"cb.example", "alt.example:8443", "127.0.0.1", "::1", "203.0.113.9:443", "b.example:65535", "[2001:db8::5]:8443", "x-y.example",
 	// addresses with a zone, bare and bracketed, with and without a port
-	"fe80::1%eth0", "fe80::a:b%lo", "[fe80::2%eth0]:8443", "2001:db8::7"}
+	"fe80::1%eth0", "fe80::a:b%lo", "[fe80::2%eth0]:8443", "2001:db8::7",
+	// internationalised names as the user types them, with and without a port
+	"例え.テスト:8443", "bücher.example", "пример.рф:444", "faß.example:8443"}
 
 func cbAddrs(form string, rng *rand.Rand) []string {
 	switch form {
@@ -455,6 +460,9 @@ var cb443Pool = [][]string{
 	// bare IPv6 literals without a port (they must come out bracketed, with or without ":443")
 	{"2001:db8::7", "cb.example:8443"},
 	{"::1", "2001:db8::9", "[2001:db8::a]:444"},
+	// internationalised names (non-ASCII last label too), with and without a port
+	{"例え.テスト:8443", "bücher.example"},
+	{"пример.рф:444", "例え.テスト"},
 }
 
 // fixtures shared by all cases.
@@ -600,6 +608,15 @@ func curlFor(work string, ol oneLiner, pin string, connectTo string) curlResult 
 	return curlResult{Args: args, Exit: res.Status, HTTPCode: string(res.Stdout), Stderr: strings.TrimSpace(string(res.Stderr)), TimedOut: res.TimedOut}
 }
 
+func isASCII(s string) bool {
+	for i := 0; i < len(s); i++ {
+		if s[i] >= 0x80 {
+			return false
+		}
+	}
+	return true
+}
+
 func bracket(h string) string {
 	if strings.Contains(h, ":") && !strings.HasPrefix(h, "[") {
 		return "[" + h + "]"
@@ -626,6 +643,12 @@ func (j *judge) curlChecks(work string, ols []oneLiner, mainHost, bound string, 
 			continue
 		}
 		seen[ol.Text] = true
+		if !isASCII(ol.Addr) {
+			// an internationalised name: whether curl can take it depends on how curl was built;
+			// the printed text is judged (fingerprint, port), not run
+			j.r.Count("oneliners_with_non_ascii_host_not_run_with_curl", 1)
+			continue
+		}
 		if strings.Contains(ol.Addr, "%") {
 			// an address with a zone: curl wants the '%' of a zone escaped in a URL and cannot be
 			// redirected for such a host; the printed text is judged (fingerprint, port), not run
@@ -1825,7 +1848,7 @@ func raceCaseRun(r *mon.Run, fx fixtures, i int) {
 // ---- Run ----------------------------------------------------------------------------------------
 
 func Run(r *mon.Run) {
-	r.Rule = "engine binary: the real -race binary on a pty, configurations drawn from listen form {127.0.0.1:0, 127.0.0.1, [::1]:0, ::1, 0.0.0.0:0, :0, [::]:0, fixed free port v4/v6} (stratified over the index) x -callback-address {none, host, host:port, several} x -serve-files-from {off, dir, file} x -ipv6-one-liners x template {default, custom with two uses of .PubkeyFP} x certificate cache {off, fresh file, file of an earlier run, 2-4 restarts on one file, default path under a private HOME}; for every run the bound port is read from the child's listening socket (/proc/<pid>/fd inode in /proc/<pid>/net/tcp{,6}), the served leaf is taken from TLS handshakes (with and without SNI, on every printed address that is an address of the listener) and hk.Pin computed by the harness; every sha256//... text on the terminal (file one-liners, shell one-liners, the help re-printed after a fake shell died) and in 2-3 /c bodies (Host, c2 query, c2 header, HTTP/1.0+SNI variants) must equal it and be std-base64 of 32 bytes; every printed one-liner must name the bound port (a one-liner without a port names 443) or a port the user gave for that host, and a host the user gave only WITH a port (not an address of this machine) must keep exactly that port; real /usr/bin/curl is run with each printed command verbatim (must exit 0; 200 for /c) and with one bit of the pin flipped (must exit 90), directly when the printed address belongs to the listener, else with --connect-to; restarts on one cache must serve and advertise one pin; in about half of the runs one printed shell one-liner that names an address of the listener is run verbatim under /bin/sh (real curl fetches /c, the script's two curl commands carry a real shell, 'exit' ends it) and the help printed afterwards is judged too. engine inproc: hsrv.New in-process, same text/handshake/script/port/restart oracles without curl. THE CACHE CHANGES UNDER A RUNNING LISTENER (every inproc case with a cache file, in one start of its restart sequence drawn per case; every binary case with a cache file, in its last run): after the start-up checks the cache file is replaced through sstls.SaveCertificate by a harness-made currently-valid certificate with another key, then fresh handshakes without SNI (every address) and with SNI (two names), /c fetched plainly and as HTTP/1.0 on an SNI connection (binary: also real curl run as printed on a one-liner that names a host, i.e. with SNI): every fingerprint the process has shown so far and embeds now must equal the pin of every key presented now (key class cache-changed-under-listener); the starts after the replacement must serve and advertise the replaced cache's key. engine inproc-race: two servers started at the same moment (one gate) on one cache path that does not exist yet, up to 5 attempts until they really made different keys; each one's fingerprints must be the pin of what IT presents without and with SNI. PORT 443 (engines inproc-443 and binary-443; the harness is root): the listener is bound to 127.0.0.1:443 | 127.0.0.2:443 | 127.0.0.3:443 | [::1]:443 (first one free, rotation by index; one such listener at a time per run, other processes' use = next candidate / bounded wait, none available = counted + inconclusive note) x callback addresses with explicit ports 8888/8443/444/443 and without (fixed list, in turn) x files x cache (with the cache change); same oracles. CACHES THE PROGRAM DID NOT WRITE ITSELF (engines inproc-chain: 2-4 starts per case, and binary-chain: 2-3 runs of the real binary per case with the real-curl checks, explicit cache path and default path under a private HOME): before the first start the harness writes the cache archive itself: cert section = a CA hierarchy made with crypto/x509, LEAF FIRST then its issuers (1, 2 or 3 certificates, stratified over the index), key section = the leaf's key; key types of leaf (stratified) and issuers (drawn) from ECDSA P-256 / RSA 2048 / Ed25519 / ECDSA P-384; between the PEM blocks nothing | blank lines | the text openssl s_client -showcerts prints | openssl pkcs12 bag attributes | CRLF line ends; private key as PKCS#8 or as EC/RSA PRIVATE KEY; archive laid out cert-key | key-cert | with a comment and other sections around; during one start (inproc) / under the last run (binary) the cache is replaced by another such chain, which the later starts load. A start-up error on such a file is counted and not judged (the program need not take it), which key of the file the program uses is counted and not judged (C08); every start that comes up is judged with the same oracles as everywhere: every advertised fingerprint equals the pin of the first certificate the listener presents in handshakes, real curl run as printed connects and with one bit of the pin flipped exits 90, restarts on the unchanged cache serve and advertise one pin. distinct = configuration signature + served pin; all non-trivial (each has at least one advertised fingerprint compared with a handshake)"
+	r.Rule = "engine binary: the real -race binary on a pty, configurations drawn from listen form {127.0.0.1:0, 127.0.0.1, [::1]:0, ::1, 0.0.0.0:0, :0, [::]:0, fixed free port v4/v6} (stratified over the index) x -callback-address {none, host, host:port, several} x -serve-files-from {off, dir, file} x -ipv6-one-liners x template {default, custom with two uses of .PubkeyFP} x certificate cache {off, fresh file, file of an earlier run, 2-4 restarts on one file, default path under a private HOME}; for every run the bound port is read from the child's listening socket (/proc/<pid>/fd inode in /proc/<pid>/net/tcp{,6}), the served leaf is taken from TLS handshakes (with and without SNI, on every printed address that is an address of the listener) and hk.Pin computed by the harness; every sha256//... text on the terminal (file one-liners, shell one-liners, the help re-printed after a fake shell died) and in 2-3 /c bodies (Host, c2 query, c2 header, HTTP/1.0+SNI variants) must equal it and be std-base64 of 32 bytes; every printed one-liner must name the bound port (a one-liner without a port names 443) or a port the user gave for that host, and a host the user gave only WITH a port (not an address of this machine) must keep exactly that port; real /usr/bin/curl is run with each printed command verbatim (must exit 0; 200 for /c) and with one bit of the pin flipped (must exit 90), directly when the printed address belongs to the listener, else with --connect-to; restarts on one cache must serve and advertise one pin; in about half of the runs one printed shell one-liner that names an address of the listener is run verbatim under /bin/sh (real curl fetches /c, the script's two curl commands carry a real shell, 'exit' ends it) and the help printed afterwards is judged too. engine inproc: hsrv.New in-process, same text/handshake/script/port/restart oracles without curl. THE CACHE CHANGES UNDER A RUNNING LISTENER (every inproc case with a cache file, in one start of its restart sequence drawn per case; every binary case with a cache file, in its last run): after the start-up checks the cache file is replaced through sstls.SaveCertificate by a harness-made currently-valid certificate with another key, then fresh handshakes without SNI (every address) and with SNI (two names), /c fetched plainly and as HTTP/1.0 on an SNI connection (binary: also real curl run as printed on a one-liner that names a host, i.e. with SNI): every fingerprint the process has shown so far and embeds now must equal the pin of every key presented now (key class cache-changed-under-listener); the starts after the replacement must serve and advertise the replaced cache's key. engine inproc-race: two servers started at the same moment (one gate) on one cache path that does not exist yet, up to 5 attempts until they really made different keys; each one's fingerprints must be the pin of what IT presents without and with SNI. PORT 443 (engines inproc-443 and binary-443; the harness is root): the listener is bound to 127.0.0.1:443 | 127.0.0.2:443 | 127.0.0.3:443 | [::1]:443 (first one free, rotation by index; one such listener at a time per run, other processes' use = next candidate / bounded wait, none available = counted + inconclusive note) x callback addresses with explicit ports 8888/8443/444/443 and without, bare IPv6 literals and internationalised names typed in UTF-8 with a non-ASCII last label (fixed list, in turn; one-liners for non-ASCII names are judged as text, not run with curl) x files x cache (with the cache change); same oracles. CACHES THE PROGRAM DID NOT WRITE ITSELF (engines inproc-chain: 2-4 starts per case, and binary-chain: 2-3 runs of the real binary per case with the real-curl checks, explicit cache path and default path under a private HOME): before the first start the harness writes the cache archive itself: cert section = a CA hierarchy made with crypto/x509, LEAF FIRST then its issuers (1, 2 or 3 certificates, stratified over the index), key section = the leaf's key; key types of leaf (stratified) and issuers (drawn) from ECDSA P-256 / RSA 2048 / Ed25519 / ECDSA P-384; between the PEM blocks nothing | blank lines | the text openssl s_client -showcerts prints | openssl pkcs12 bag attributes | CRLF line ends; private key as PKCS#8 or as EC/RSA PRIVATE KEY; archive laid out cert-key | key-cert | with a comment and other sections around; during one start (inproc) / under the last run (binary) the cache is replaced by another such chain, which the later starts load. A start-up error on such a file is counted and not judged (the program need not take it), which key of the file the program uses is counted and not judged (C08); every start that comes up is judged with the same oracles as everywhere: every advertised fingerprint equals the pin of the first certificate the listener presents in handshakes, real curl run as printed connects and with one bit of the pin flipped exits 90, restarts on the unchanged cache serve and advertise one pin. distinct = configuration signature + served pin; all non-trivial (each has at least one advertised fingerprint compared with a handshake)"
 	r.Assumptions = []string{
 		"callback host names (cb.example ...) do not resolve here: their one-liners are exercised with curl --connect-to, which checks the same pin against the same listener",
 		"link-local IPv6 one-liners carry no zone and cannot be connected to directly; same treatment",
@@ -1951,6 +1974,7 @@ func Run(r *mon.Run) {
 	r.Floor("curl_pinned_ok", q(20, 300))
 	r.Floor("curl_altered_rejected", q(20, 300))
 	r.Floor("oneliners_checked", q(150, 1500))
+	r.Floor("oneliners_with_non_ascii_host_checked", q(10, 100))
 	r.Floor("scripts_checked", q(100, 1000))
 	r.Floor("reprints_checked", q(15, 200))
 	r.Floor("restart_sequences", q(6, 80))
